@@ -600,6 +600,12 @@ class LTE:
                     1 - relaxation_factor
                 ) * self.__Ni + relaxation_factor * new_Ni
 
+                # A non-finite stopping quantity (NaN compares False with the
+                # tolerance) must not be mistaken for convergence.
+                if not np.isfinite(relative_tolerance):
+                    minimiser_success = False
+                    break
+
                 minimiser_iters += 1
                 if minimiser_iters > self.gfe_max_iter:
                     minimiser_success = False
